@@ -592,8 +592,11 @@ Generic_set_xor(PyObject* self, PyObject* other)
     PyObject* result = NULL;
 
     set_self = PySet_New(self);
+    if (set_self == NULL) {
+        goto err;
+    }
     set_other = PySet_New(other);
-    if (set_self == NULL || set_other == NULL) {
+    if (set_other == NULL) {
         goto err;
     }
 
